@@ -24,9 +24,23 @@ def cal_header(cal_id: str) -> dict:
         eras = list(cal.eras())
         if not eras:
             eras_ok = False
+        covered = set()
         for er in eras:
-            cal.get_min_year_of_era(er)
-            cal.get_max_year_of_era(er)
+            lo, hi = cal.get_min_year_of_era(er), cal.get_max_year_of_era(er)
+            # the advertised year-of-era range of each era converts into the calendar's years, and nothing outside it does
+            for yoe in (lo, hi):
+                a = cal.get_absolute_year(yoe, er)
+                if not (cal.min_year <= a <= cal.max_year):
+                    eras_ok = False
+                covered.add(a)
+            for yoe in (lo - 1, hi + 1, lo - 1000, hi + 1000):
+                try:
+                    cal.get_absolute_year(yoe, er)
+                    eras_ok = False          # a year of era outside the advertised range was mapped instead of rejected
+                except (ValueError, OverflowError):
+                    pass
+        if not {cal.min_year, cal.max_year} <= covered:
+            eras_ok = False                  # the eras together span the calendar's whole year range
     except Exception:
         eras_ok = False
     return {"op": "cal", "cal": cal_id, "min_year": cal.min_year, "max_year": cal.max_year,
